@@ -29,8 +29,8 @@ class AbstractRaise(Exception):
 # ----------------------------------------------------------------------------------------------
 class Ctx:
     """index oracle + bookkeeping"""
-    M = 6
-    NMIN = 14
+    M = int(__import__('os').environ.get('PV_MARGIN', '4'))
+    NMIN = int(__import__('os').environ.get('PV_NMIN', '8'))
 
     def __init__(self):
         self.bounds = {}          # atom id -> (lo Poly, hi Poly)   inclusive, may mention N atoms
@@ -754,8 +754,7 @@ def _assign_advanced(ctx, box, items, val, lineno):
         else:
             enumerate_mode = True
     conc = None
-    if enumerate_mode and old.ndim == 1 and len(adv) == 1 and adv[0].ndim == 1 and (adv[0].segs is not None or adv[0].tag is not None) \
-            and adv[0].concrete_shape() is None:
+    if enumerate_mode and old.ndim == 1 and len(adv) == 1 and adv[0].ndim == 1 and (adv[0].segs is not None or adv[0].tag is not None):
         # scatter into a flat vector through an array of cell numbers: keep the write log only;
         # such vectors are read row-wise through the log (never by flat position)
         prev = old
